@@ -118,7 +118,7 @@ pub fn assemble(p: &Program, mode: Mode, env: &Env) -> (Vec<LT>, Goal<U, E>) {
     (qvars, goal)
 }
 
-fn mentions(t: &LT, target: &LT) -> bool {
+fn mentions<U2: proto_vulcan::user::User, E2: proto_vulcan::engine::Engine<U2>>(t: &LTerm<U2, E2>, target: &LTerm<U2, E2>) -> bool {
     use proto_vulcan::lterm::LTermInner;
     if t == target {
         return true;
@@ -133,7 +133,7 @@ fn mentions(t: &LT, target: &LT) -> bool {
     }
 }
 
-fn collect_vars(t: &LT, out: &mut Vec<LT>) {
+fn collect_vars<U2: proto_vulcan::user::User, E2: proto_vulcan::engine::Engine<U2>>(t: &LTerm<U2, E2>, out: &mut Vec<LTerm<U2, E2>>) {
     use proto_vulcan::lterm::LTermInner;
     match t.as_ref() {
         LTermInner::Var(..) => {
@@ -156,7 +156,7 @@ fn collect_vars(t: &LT, out: &mut Vec<LT>) {
     }
 }
 
-pub fn convert(results: &[LResult<U, E>]) -> (Answer, AnswerMeta) {
+pub fn convert<U2: proto_vulcan::user::User, E2: proto_vulcan::engine::Engine<U2>>(results: &[LResult<U2, E2>]) -> (Answer, AnswerMeta) {
     let mut ub = Unbuilder::new();
     let terms: Vec<Term> = results.iter().map(|r| ub.term(&r.0)).collect();
     let nvars_in_terms = ub.ids.len();
@@ -164,7 +164,7 @@ pub fn convert(results: &[LResult<U, E>]) -> (Answer, AnswerMeta) {
     let mut meta = AnswerMeta::default();
     if let Some(first) = results.first() {
         for c in first.1.iter() {
-            if let Some(d) = c.downcast_ref::<DisequalityConstraint<U, E>>() {
+            if let Some(d) = c.downcast_ref::<DisequalityConstraint<U2, E2>>() {
                 let mut pairs: Vec<(Term, Term)> = d.smap_ref().iter().map(|(k, v)| (ub.term(k), ub.term(v))).collect();
                 pairs.sort();
                 cons.push(pairs);
@@ -181,7 +181,7 @@ pub fn convert(results: &[LResult<U, E>]) -> (Answer, AnswerMeta) {
                 .iter()
                 .filter(|c| {
                     c.operands().iter().any(|op| vs.iter().any(|v| v == op))
-                        || c.downcast_ref::<DisequalityConstraint<U, E>>()
+                        || c.downcast_ref::<DisequalityConstraint<U2, E2>>()
                             .map(|d| d.smap_ref().iter().any(|(k, v)| vs.iter().any(|x| mentions(k, x) || mentions(v, x))))
                             .unwrap_or(false)
                 })
